@@ -446,6 +446,11 @@ func runC02(w *World, r *Report) {
 	r.Rule("C02.passthrough-sides", "the helper a pass-through node derives from its neighbour fills its input-side slots (zero value, empty stream — what a DAG channel hands a node triggered without data) from ONE side of the neighbour (shared with C04.role-uniform, package compose)", 5)
 	ruleRoleUniform(w, r, "C02.passthrough-sides", "compose")
 
+	r.Rule("C02.visits-all", "the loops that hand a finished node's output and dependencies to its successors (resolveCompletedTasks, updateValues, updateDependencies, createTasks) are left only when exhausted or with an error: a duplicate or data-less target met first must not end the delivery for the targets listed after it (shared with C01 / C03)", 4)
+	ruleLoopsTotal(w, r, "C02.visits-all", []*ssa.Function{
+		w.Fn("compose", "runner.resolveCompletedTasks"), w.Fn("compose", "channelManager.updateValues"), w.Fn("compose", "channelManager.updateDependencies"), w.Fn("compose", "runner.createTasks"),
+	}, map[string]string{}, "a successor that was selected gets no data or no trigger: it never runs, END never becomes ready ('no tasks to execute')")
+
 	r.Rule("C02.workflow-flags", "noDirectDependency -> (noControl=true,noData=false); dependencyWithoutInput -> (false,true); default -> (false,false); workflow branches skipData=true", 4)
 	adr := w.Fn("compose", "WorkflowNode.addDependencyRelation")
 	addEdge := w.Fn("compose", "graph.addEdgeWithMappings")
